@@ -449,6 +449,10 @@ def run_scenario(sc, tape_mode="log", script=None, keep_raw=False, provider=None
                     "normok": _normok(ex),
                     "offset_ok": _offset_ok(ex, sc),
                     }
+            call["unconsumed"] = 0
+            if tape_mode == "script" and tape.script:
+                call["unconsumed"] = len(tape.script)     # scripted draws the code never asked for
+                del tape.script[:]
             calls.append(call)
             if outcome == "err" and pre["seen"] >= 1 and call["nrows"] == 0:
                 call["outcome"] = "exc"      # the imputer found the storage empty: a naturally occurring fault
